@@ -109,3 +109,10 @@ func VerifUserState(c net.Conn) (inNext, outNext uint16, outLen int, frag uint32
 	on, ol, _ := u.out.VerifState()
 	return u.in.NextSeqNo, on, ol, u.Serializer.Downstream.FragmentSize
 }
+
+// VerifUserIn: packets parked out of order and octets waiting to be read on a server-side session.
+func VerifUserIn(c net.Conn) (future int, buffered int) {
+	u := c.(*userConnection)
+	_, b, f, _ := u.in.VerifState()
+	return f, len(b)
+}
